@@ -372,7 +372,22 @@ func pureStreamCases(c *fw.Ctx, n int, viol func(rule, sig, format string, a ...
 			}
 			viol("pure-amount-to-claim", rel+"/product"+prodMag+"/"+gapCls, "CalculateAmountToClaim(gap=%ds+%dns-%dns, deposit=%s, rate=%d, %s) = (%s, remaining %s), exact = %s", gap, nowNs, lastNs, dep, rate, rel, gotAmt.Amount, gotRem.Amount, wantAmt)
 		}
-		// duration
+		// duration: also deposits that sit on, just below and just above a whole multiple of the rate
+		// (floor must not round: k x rate - 1 lasts k-1 seconds), the fee likewise below
+		for _, d := range nearMultiples(r, rate) {
+			dc := sdk.NewCoin(lab.DenomBig, math.NewIntFromBigInt(d))
+			wd := new(big.Int).Quo(d, big.NewInt(rate))
+			if wd.BitLen() > 62 {
+				continue
+			}
+			var gd int64
+			c.Count("pure_cases", 1)
+			if p := safeCall(func() { gd = streamtypes.CalculateDuration(dc, rate) }); p != nil {
+				viol("pure-panic", "CalculateDuration", "CalculateDuration(%s, %d) panicked: %v", dc, rate, p)
+			} else if big.NewInt(gd).Cmp(wd) != 0 {
+				viol("pure-duration", "near-multiple/"+magOf(wd), "CalculateDuration(%s, %d) = %d, exact floor = %s", dc, rate, gd, wd)
+			}
+		}
 		wantDur := new(big.Int).Quo(dep, big.NewInt(rate))
 		var gotDur int64
 		if wantDur.BitLen() <= 62 {
@@ -397,6 +412,21 @@ func pureStreamCases(c *fw.Ctx, n int, viol func(rule, sig, format string, a ...
 			viol("pure-validator-fee", "fee"+magOf(wantFee), "CalculateValidatorFee(%s, %s) = (receiver %s, fee %s), exact fee floor = %s", feeRate, amtCoin, gotRecv.Amount, gotFee.Amount, wantFee)
 		}
 	}
+}
+
+// nearMultiples: k x rate + {-4..-1, 0, +1} for a few k (small, mid, large).
+func nearMultiples(r *fw.Rand, rate int64) []*big.Int {
+	var out []*big.Int
+	for _, k := range []int64{1, 60, int64(r.Range(2, 1_000_000)), r.Int63()>>uint(r.Range(1, 40)) + 1} {
+		base := new(big.Int).Mul(big.NewInt(k), big.NewInt(rate))
+		for _, off := range []int64{-4, -1, 0, 1} {
+			d := new(big.Int).Add(base, big.NewInt(off))
+			if d.Sign() > 0 {
+				out = append(out, d)
+			}
+		}
+	}
+	return out
 }
 
 func runC11(c *fw.Ctx) {
